@@ -223,6 +223,32 @@ def rule_A4(ctx):
                         r.finding(p, "apply-argument", loc(f["hir"]), "host apply receives argument %s; it must be the right operand (%s)" % (_fmt(arg), _fmt(right)))
         if "defer" in kinds_seen:
             n_defer_fns += 1
+    # unit without an offer: in a function that defers undefined combinations, a path that answers unit having neither asked the
+    # host nor looked at / built any value decides "undefined" by the operand types alone - exactly the case the host must be
+    # offered first.  Decided with a flags-only model (which of {unit pushed, host asked, value touched} happened on the path).
+    mflags = rt.Model(F, trusted=spec("arity.json")["trusted"], refine_tags=False, flags_only=True)
+    n_unit_paths = 0
+    for p in sorted(instruction_fns(F)):
+        f = F.fns[p]
+        if f["name"] == "make_list":
+            continue
+        try:
+            outs = mflags.summary(p, entry_args(f["mir"]["argc"]), 0)
+        except (ai.StateCapExceeded, rt.Unmodelled) as e:
+            continue  # reported above by the detailed model
+        if not any("defer" in ts[3] for _rv, ts in outs):
+            continue
+        for rv, ts in outs:
+            if is_variant(rv, "Ok") and "add_unit" in ts[3]:
+                n_unit_paths += 1
+        bad = [ts for rv, ts in outs if is_variant(rv, "Ok") and "add_unit" in ts[3] and "defer" not in ts[3] and "work" not in ts[3]]
+        r.examine((p, "unit-paths"), True, None)
+        if bad and p in al.get("unit_without_offer", {}):
+            r.info.append("allow-listed unit-without-offer in %s: %s" % (p, al["unit_without_offer"][p]))
+            continue
+        if bad:
+            r.finding(p, "unit-without-offer", loc(f["hir"]), "a path through `%s` pushes unit without offering the operands to the host (defer_op) and without having read or built any value: an operand combination is declared undefined by its types alone, which is the case the host must be asked about first" % f["name"])
+    r.analysed["paths_answering_unit_in_deferring_functions"] = n_unit_paths
     # input value first: in resolve(), a successful lookup in the current input value ends the look-up
     rf = [p for p in instruction_fns(F) if F.fns[p]["name"] == "resolve"]
     if rf:
